@@ -1,5 +1,146 @@
 import AiocoapModel.Basic.Bytes
-/-! Line protocol for C17 (not built yet). -/
+import AiocoapModel.Apps.Wkc
+/-! Line protocol for the site-routing / discovery model.
+
+`C17 <wkc-id|-> <impl-info hex|-> <op>*` — one registration/request history on a root `Site()`.
+Encodings: a string is lower-case hex of its UTF-8 bytes (`-` empty); a path is `.` (empty) or
+components joined by `/`; an address (which nested site object) is `^` (root) or the sub-site
+keys joined by `|`.  Ops (one token each):
+
+* `S:<addr>:<path>`                      `add_resource(path, Site())`
+* `F:<addr>:<path>:<id>`                 `add_resource(path, <PathCapable leaf id>)`
+* `R:<addr>:<path>:<id>:<h|v>:<attrs>`   `add_resource(path, <resource id>)`; hidden / visible with
+                                         attrs `.` or `k=v,k,…` (no `=`: valueless)
+* `D:<addr>:<path>`                      `remove_resource(path)`        → `ok` | `KeyError`
+* `G:<upa|->:<path>:<queries>`           a GET (queries `.` or hex joined by `,`)
+      → `404` | `402` | `H:<id>:<seen>:<orig as URI segments>` | `L:<link>,…` when the resource
+        that ran is the WKCResource `wkc-id` (link = `href;k=v;k`)
+-/
 namespace Aiocoap
-def handleC17 (_args : List String) : String := "out-of-model"
+
+open Aiocoap.Apps
+
+namespace C17
+
+def parseStr (s : String) : Option Str := hexToBytes s
+
+def parsePath (s : String) : Option Path :=
+  if s = "." then some [] else (s.splitOn "/").mapM parseStr
+
+def parseAddr (s : String) : Option (List Path) :=
+  if s = "^" then some [] else (s.splitOn "|").mapM parsePath
+
+def parseAttr (s : String) : Option (Str × Option Str) :=
+  match s.splitOn "=" with
+  | [k] => (parseStr k).map (fun k => (k, none))
+  | [k, v] => do
+    let k ← parseStr k
+    let v ← parseStr v
+    pure (k, some v)
+  | _ => none
+
+def parseList {α : Type} (f : String → Option α) (s : String) : Option (List α) :=
+  if s = "." then some [] else (s.splitOn ",").mapM f
+
+def showStr (b : Str) : String := bytesToHex b
+
+def showPath (p : Path) : String :=
+  if p.isEmpty then "." else "/".intercalate (p.map showStr)
+
+def showAttr (a : Str × Option Str) : String :=
+  match a.2 with
+  | none => showStr a.1
+  | some v => showStr a.1 ++ "=" ++ showStr v
+
+def showLink (l : Link) : String := ";".intercalate (showStr l.href :: l.attrs.map showAttr)
+
+/-- the segments of the path part of the URI `get_request_uri` builds from
+`_original_request_path` (`"".join("/" + c) or "/"`, message.py:665) -/
+def uriSegs (p : Path) : Path := if p = [] then [[]] else p
+
+inductive Step where
+  | state (s : Site)
+  | out (s : Site) (o : String)
+  | oom
+  | bad
+
+def asciiKey (k : Str) : Bool := k.all (· < 128)
+
+def stepOp (wkc : Option Nat) (impl : Option Str) (root : Site) (op : String) : Step :=
+  let upd (r : Option (Option Site)) : Step :=
+    match r with
+    | some (some s) => .state s
+    | _ => .bad
+  match op.splitOn ":" with
+  | ["S", a, p] => upd do
+    let a ← parseAddr a
+    let p ← parsePath p
+    pure (root.reg (.addSite a p (.node [] [])))
+  | ["F", a, p, i] => upd do
+    let a ← parseAddr a
+    let p ← parsePath p
+    let i ← i.toNat?
+    pure (root.reg (.addSite a p (.leaf i)))
+  | ["R", a, p, i, h, attrs] => upd do
+    let a ← parseAddr a
+    let p ← parsePath p
+    let i ← i.toNat?
+    let h ← (if h = "h" then some true else if h = "v" then some false else none)
+    let attrs ← parseList parseAttr attrs
+    pure (root.reg (.addRes a p ⟨i, h, attrs⟩))
+  | ["D", a, p] =>
+    match parseAddr a, parsePath p with
+    | some a, some p =>
+      -- an address that does not lead to a Site is a harness error, a missing key is a KeyError
+      match root.modifyAt some a with
+      | none => .bad
+      | some _ =>
+        match root.reg (.remove a p) with
+        | some s => .out s "ok"
+        | none => .out root "KeyError"
+    | _, _ => .bad
+  | ["G", u, p, qs] =>
+    match (if u = "-" then some none else u.toNat?.map some), parsePath p,
+        parseList parseStr qs with
+    | some u, some p, some qs =>
+      match root.serve u p with
+      | .notFound => .out root "404"
+      | .badOption => .out root "402"
+      | .hit h =>
+        if some h.id = wkc then
+          if !(root.links.all (fun l => l.attrs.all (fun kv => asciiKey kv.1))) ||
+              !(qs.all (fun q => match splitEq q with | some kv => asciiKey kv.1 | none => true))
+          then .oom
+          else match wkcRender root.links impl qs with
+            | none => .oom
+            | some ls => .out root ("L:" ++ ",".intercalate (ls.map showLink))
+        else .out root s!"H:{h.id}:{showPath h.seen}:{showPath (uriSegs h.orig)}"
+    | _, _, _ => .bad
+  | _ => .bad
+
+def runOps (wkc : Option Nat) (impl : Option Str) : Site → List String → List String →
+    Option (Option (List String))
+  | _, [], acc => some (some acc.reverse)
+  | s, op :: ops, acc =>
+    match stepOp wkc impl s op with
+    | .state s' => runOps wkc impl s' ops acc
+    | .out s' o => runOps wkc impl s' ops (o :: acc)
+    | .oom => some none
+    | .bad => none
+
+end C17
+
+def handleC17 (args : List String) : String :=
+  match args with
+  | wkc :: impl :: ops =>
+    match (if wkc = "-" then some none else wkc.toNat?.map some),
+        (if impl = "-" then some none else (C17.parseStr impl).map some) with
+    | some wkc, some impl =>
+      match C17.runOps wkc impl (.node [] []) ops [] with
+      | some (some outs) => if outs.isEmpty then "-" else " ".intercalate outs
+      | some none => "out-of-model"
+      | none => "bad-op"
+    | _, _ => "bad-op"
+  | _ => "bad-op"
+
 end Aiocoap
